@@ -626,13 +626,21 @@ def tail_correspondence(ctx, g, broken, quick):
     env = dict(os.environ, ASAN_OPTIONS="detect_leaks=0:abort_on_error=0")
     nseq = 300 if quick else 5000
     rng = ctx.rng.fork("tailframes")
-    lines_h, kinds = [], {"push": 0, "tail": 0, "call": 0, "arity": 0, "grow": 0}
+    lines_h, kinds = [], {"push": 0, "tail": 0, "call": 0, "ret": 0, "arity": 0, "grow": 0}
     for i in range(nseq):
         lines_h.append("new %d %d" % (rng.choice([0, 1, 8, 16, 64, 200]), rng.range(0, 40)))
-        for _ in range(rng.range(1, 30)):
-            r = rng.below(10)
+        nargs, depth = 0, 1            # arguments pushed since the last frame operation; live frames (known exactly: an
+        for _ in range(rng.range(1, 30)):   # arity mismatch leaves the fiber unchanged)
+            r = rng.below(11)
             if r < 4:
-                lines_h.append("push %d" % rng.choice([0, 1, 1, 2, 3, 5, 17, 100]))
+                k = rng.choice([0, 1, 1, 2, 3, 5, 17, 100])
+                lines_h.append("push %d" % k)
+                nargs += k
+            elif r == 10:
+                if depth >= 2:
+                    lines_h.append("ret")
+                    depth -= 1
+                    nargs = 0
             else:
                 slot = rng.choice([0, 1, 2, 5, 9, 30, 120, 700])
                 arity = rng.range(0, min(slot, 6))
@@ -640,16 +648,17 @@ def tail_correspondence(ctx, g, broken, quick):
                 mn = arity if rng.below(4) else rng.range(0, arity)
                 mx = 2147483647 if vararg else (arity if rng.below(4) else arity + rng.range(0, 3))
                 lines_h.append("%s %d %d %d %d %d" % ("tail" if r < 8 else "call", slot, arity, mn, mx, 1 if vararg else 0))
+                if mn <= nargs <= mx:
+                    nargs = 0
+                    depth += 0 if r < 8 else 1
     rc, out, err = run_cmd_([hx], "\n".join(lines_h) + "\n", env)
     impl = out.splitlines()
     if rc != 0 or len(impl) != len(lines_h):
         ctx.violation("tailframe-crash", {"kind": "crash", "rc": rc, "stderr": err[-1500:], "ops": lines_h[:max(0, len(impl) - 5):len(impl) + 1][-20:]},
                       what="fiber frame functions crashed / sanitizer report (rc=%s)" % rc)
         return {"sequences": nseq, "crashed": True}
-    # the model starts every sequence from the state the implementation reports for the fresh fiber
-    lines_m = []
-    for l, o in zip(lines_h, impl):
-        lines_m.append(("init " + o) if l.startswith("new") else l)
+    # the model builds the fresh fiber itself (fiberNew = fiber_alloc + fiber_reset + janet_fiber_funcframe)
+    lines_m = [("fnew" + l[3:]) if l.startswith("new") else l for l in lines_h]
     lines_m.append("rankok")
     model = ctx.model(lines_m, exe=exe)
     diffs = []
@@ -667,7 +676,47 @@ def tail_correspondence(ctx, g, broken, quick):
     if g is not None and not drv_ok.startswith(py_ok):
         broken.append("driver rankOK=%s but translator found unguarded cycles=%s" % (drv_ok, g.bad))
         ctx.broken.append(broken[-1])
-    return {"sequences": nseq, "ops": len(lines_h), "op_mix": kinds, "diffs": len(diffs), "first_diffs": diffs[:3], "driver_rankok": drv_ok}
+    ms = maxstack_correspondence(ctx, exe, broken, quick)
+    return {"sequences": nseq, "ops": len(lines_h), "op_mix": kinds, "diffs": len(diffs), "first_diffs": diffs[:3], "driver_rankok": drv_ok,
+            "maxstack": ms}
+
+
+def maxstack_correspondence(ctx, exe, broken, quick):
+    """fiber-stack side: the real VM (plain and asan builds) runs non-tail self recursions of four shapes on fibers with
+    `maxstack` M; the depth reached and the error must be what the Lean model (vcall / vpushn / fiberNew, driver op
+    `overflow`) predicts from the slot counts; every run must end in the CATCHABLE error "stack overflow"."""
+    rng = ctx.rng.fork("maxstack")
+    ms = [0, 1, 4, 5, 17, 18, 19, 64, 1000] + [rng.range(2, 60) for _ in range(6)] + [rng.range(60, 5000) for _ in range(6)]
+    ms += [rng.range(5000, 200000) for _ in range(2 if quick else 12)]
+    script = os.path.join(VERIF, "harness/C19/maxstack.janet")
+    env = dict(os.environ, ASAN_OPTIONS="detect_leaks=0:abort_on_error=0")
+    rows, bad = [], []
+    for label in ("plain", "asan"):
+        v = ctx.try_variant(label)
+        if not v:
+            continue
+        rc, out, err = run_cmd_([v["janet"], script] + [str(m) for m in ms], "", env)
+        got = [l.split(None, 10) for l in out.splitlines() if l.startswith("MS ")]
+        if is_crash(rc, err) or rc != 0 or len(got) != 4 * len(ms):
+            ctx.violation("maxstack-crash", {"kind": "crash", "rc": rc, "variant": label, "stderr": err[-1500:], "maxstacks": ms,
+                                             "cmd": "%s %s %s" % (v["janet"], script, " ".join(str(m) for m in ms))},
+                          what="deep non-tail recursion on a fiber with a small maxstack kills the process (rc=%s, %s)" % (rc, label))
+            return {"runs": 0, "crashed": True}
+        model = ctx.model(["overflow " + " ".join(g[2:9]) for g in got], exe=exe)
+        for g, m in zip(got, model):
+            impl = "%s %s" % (g[9], g[10] if len(g) > 10 else "")
+            rows.append((label, g[1], int(g[4]), int(g[9])))
+            if (g[10] if len(g) > 10 else "") != "stack overflow":
+                # the property itself: the recursion must end in the catchable error
+                ctx.violation("maxstack-no-error:" + g[1], {"kind": "maxstack", "variant": label, "shape": g[1], "maxstack": int(g[4]), "result": impl},
+                              what="recursion %s on a fiber with maxstack %s did not raise 'stack overflow': %s" % (g[1], g[4], impl))
+            if impl.strip() != m.strip():
+                bad.append({"variant": label, "shape": g[1], "args": " ".join(g[2:9]), "impl": impl, "model": m})
+    if bad:
+        broken.append("correspondence maxstack (vm.c JOP_CALL test + fiber.c frames vs Depth/FiberStack.lean): %d of %d differ, first %r" % (len(bad), len(rows), bad[0]))
+        ctx.broken.append(broken[-1])
+    return {"runs": len(rows), "maxstacks": ms, "diffs": len(bad), "first_diffs": bad[:3], "depth_reached_range": [min(r[3] for r in rows), max(r[3] for r in rows)] if rows else None,
+            "samples": ["%s %s M=%d -> %d frames, stack overflow" % r for r in rows[:6]]}
 
 
 def run_cmd_(cmd, inp, env):
